@@ -35,14 +35,20 @@ class Cancel(Monitor):
 
     def reset(self):
         self.snap = None
+        self.api_cancelled = set()  # (batch, group) whose cancellation the API acknowledged: the ledger, independent of the tables
         self.cancelled_before = set()
         self.jobs_before = {}
         self.groups_before = set()
         self.updates_before = set()
 
+    def is_cancelled(self, v, b, g):
+        """cancelled according to the tables OR according to the API's own acknowledgements (an acknowledged cancel that
+        left no trace must not make the oracle forget it)"""
+        return v.group_cancelled(b, g) or any((b, a) in self.api_cancelled for a in v.ancestors.get((b, g), {g}))
+
     def before_op(self, v):
         self.snap = v.eng.snapshot()
-        self.cancelled_before = {(b, g) for (b, g) in v.groups if v.group_cancelled(b, g)}
+        self.cancelled_before = {(b, g) for (b, g) in v.groups if self.is_cancelled(v, b, g)}
         self.jobs_before = {k: dict(j) for k, j in v.jobs.items()}
         self.groups_before = set(v.groups)
         self.updates_before = set(v.updates)
@@ -75,6 +81,10 @@ class Cancel(Monitor):
             b = rec['result']['batch_id']
             g = rec['result'].get('job_group_id', 0)
             ctx.count('cancels_applied')
+            self.api_cancelled.add((b, g))
+            if not v.group_cancelled(b, g):
+                self.r.violation('cancel-acknowledged-but-not-recorded', f'cancel of {(b, g)} was answered OK but the group is not cancelled afterwards '
+                                 f'(group state {v.groups.get((b, g), {}).get("state")})', {'group': [b, g]})
             if (b, g) in self.cancelled_before:
                 ctx.count('repeated_cancels_checked')
                 if eng.snapshot() != self.snap:
@@ -118,7 +128,17 @@ class Cancel(Monitor):
 
 
 class CancelledEdges(sqlmon.EdgeMonitor):
+    cancel_monitor = None
+
     def on_commit(self, v):
+        cm = self.cancel_monitor
+        if cm is not None and cm.api_cancelled:
+            # jobs under a group whose cancel the API acknowledged count as marked cancelled even if the tables lost it
+            for k, j in v.jobs.items():
+                if v.committed(j) and cm.is_cancelled(v, k[0], j['job_group_id']):
+                    if j['state'] in ('Creating', 'Running') and self.prev.get(k) not in ('Creating', 'Running', None) and not j['always_run'] and self.prev_marked.get(k) is False:
+                        self.r.violation('cancelled-job-started/entered-' + j['state'].lower() + '-after-acknowledged-cancel',
+                                         f'job {k} (not always_run) entered {j["state"]} under a group whose cancellation was acknowledged', {'job': list(k)})
         for k, j in v.jobs.items():
             ps = self.prev.get(k)
             if ps is not None and ps != j['state'] and j['state'] == 'Cancelled' and not self.prev_marked.get(k) and v.committed(j):
@@ -128,6 +148,13 @@ class CancelledEdges(sqlmon.EdgeMonitor):
         super().on_commit(v)
 
 
+def _monitors(p):
+    c = Cancel(p)
+    e = CancelledEdges(p, check_lifecycle=False)
+    e.cancel_monitor = c
+    return [e, c]
+
+
 def run(ctx):
-    sqlmon.standard_run(ctx, lambda p: [CancelledEdges(p, check_lifecycle=False), Cancel(p)],
+    sqlmon.standard_run(ctx, _monitors,
                         cfg={'max_groups_per_update': 4, 'weights': {'cancel_batch': 2, 'cancel_job_group': 6, 'submit_group_bunch': 8, 'cancel_ready': 4, 'cancel_running': 3, 'cancel_creating': 2}})
